@@ -67,13 +67,13 @@ type advCase struct {
 	Monitor bool
 	// ReportK1: report a loss with the K1 signature as the known finding (C07
 	// only); other properties' parallel passes merely count it.
-	ReportK1      bool
+	ReportK1 bool
 	// StallMC: the k-th (1-based, the initial RA is 1) multicast write of
 	// generation 1 blocks for StallFor before the packet is on the wire.
 	StallMC  int
 	StallFor time.Duration
 	// DeadlineLat: the interruption of the reader takes this long to take effect.
-	DeadlineLat time.Duration
+	DeadlineLat   time.Duration
 	StopHook      string
 	StopHookAfter time.Duration
 	StopHookDelay time.Duration
